@@ -300,3 +300,47 @@ def rule_perm_provenance(ctx):
                     r.ok(f"{construct}[{iname}]", sample={"function": f.qualname, "index": f"{iname} = {src_of(a.value)[:50]}", "keyed on": sorted(subj & permuted), "permutes": sorted(permuted)})
     r.floor(n, 7, "selection / sorting permutations")
     return r
+
+
+def rule_none_vs_zero(ctx):
+    r = RuleResult(
+        "none-vs-zero",
+        "in quimb/linalg an optional numeric selection parameter (default None: sigma, the target / shift of a spectral "
+        "window, k ...) is only ever tested with `is None` / `is not None`: a truthiness test treats the legitimate value 0 "
+        "(eigenvalues nearest zero) as 'not given' and silently selects a different part of the spectrum",
+    )
+    NUMERIC = {"sigma", "target", "shift", "k", "w_0", "w_sz", "k_min", "k_max", "tol", "ncv", "maxiter"}
+    n = 0
+    for f in ctx.prog.all_functions(nested=False):
+        if f.is_alias or isinstance(f.node, ast.Lambda):
+            continue
+        if not (f.module.name in LINALG_MODULES or ctx.is_control(f)):
+            continue
+        a = f.node.args
+        params = a.args + a.kwonlyargs
+        defaults = [None] * (len(a.args) - len(a.defaults)) + list(a.defaults) + list(a.kw_defaults)
+        nonep = {p_.arg for p_, d in zip(params, defaults) if isinstance(d, ast.Constant) and d.value is None and p_.arg in NUMERIC}
+        if not nonep:
+            continue
+        if not ctx.is_control(f):
+            n += 1
+        hit = None
+        for x in ast.walk(f.node):
+            tests = []
+            if isinstance(x, (ast.If, ast.IfExp, ast.While)):
+                tests = [x.test]
+            elif isinstance(x, ast.BoolOp):
+                tests = list(x.values)
+            elif isinstance(x, ast.UnaryOp) and isinstance(x.op, ast.Not):
+                tests = [x.operand]
+            for t in tests:
+                if isinstance(t, ast.Name) and t.id in nonep:
+                    hit = (t.id, x.lineno)
+        if hit:
+            r.bad(Finding("none-vs-zero", f.qualname, f"tests the truthiness of `{hit[0]}` (line {hit[1]}): {hit[0]}=0 is treated as 'not given'",
+                          where=f"{f.module.relpath}:{hit[1]}", operand=hit[0]))
+        else:
+            r.ok(f.qualname, sample={"function": f.qualname, "optional numeric parameters": sorted(nonep)}, nontrivial=False)
+    r.floor(n, 4, "linalg functions with optional numeric selection parameters")
+    r.need_controls(1)
+    return r
